@@ -11,6 +11,7 @@ import (
 	"os"
 	"sort"
 	"strings"
+	"sync/atomic"
 	"time"
 
 	"golang.org/x/tools/go/ssa"
@@ -410,6 +411,7 @@ type frame struct {
 	exit     *State
 	iters    map[*ssa.BasicBlock]int
 	constHdr map[*ssa.BasicBlock]bool
+	unknownIters map[*ssa.BasicBlock]int
 }
 
 func (fr *frame) addPending(ex *Exec, m map[*ssa.BasicBlock]*State, b *ssa.BasicBlock, s *State) {
@@ -451,8 +453,23 @@ func (ex *Exec) flow(fr *frame, s *State, from, to *ssa.BasicBlock) {
 				fmt.Printf("    conj t%d op=%d nargs=%d\n", c.id, c.op, len(c.args))
 			}
 		}
-		if !fr.constHdr[to] && ex.feasible(s) != "sat" {
-			return
+		if !fr.constHdr[to] {
+			r := ex.feasible(s)
+			if r == "unsat" {
+				return
+			}
+			if r == "unknown" {
+				// the solver cannot decide whether the loop continues: give up
+				// on this loop after a few rounds instead of unrolling blindly
+				fr.unknownIters[to]++
+				if fr.unknownIters[to] > 6 {
+					ex.restrictions++
+					v := &VC{Kind: "unwind", Site: fmt.Sprintf("%s loop at block %d: continuation undecided by the solver", fr.fn.String(), to.Index), Result: "unknown", Harness: ex.harness}
+					ex.vcs = append(ex.vcs, v)
+					ex.undecided = append(ex.undecided, v)
+					return
+				}
+			}
 		}
 		fr.addPending(ex, fr.deferred, to, s)
 		return
@@ -483,9 +500,6 @@ func (ex *Exec) feasible(s *State) string {
 		return r
 	}
 	r := ex.solver.CheckQuick(ex.feasMs, pc)
-	if r == "unknown" {
-		r = "sat" // keep exploring; unwinding limit still applies
-	}
 	ex.feasCache[pc.id] = r
 	return r
 }
@@ -513,7 +527,7 @@ func (ex *Exec) callFunction(st *State, fn *ssa.Function, args []Value, bind []V
 	}()
 	ex.funcsSeen[fn.String()] = true
 	fi := ex.info(fn)
-	fr := &frame{fn: fn, fi: fi, pending: map[*ssa.BasicBlock]*State{}, deferred: map[*ssa.BasicBlock]*State{}, iters: map[*ssa.BasicBlock]int{}, constHdr: map[*ssa.BasicBlock]bool{}}
+	fr := &frame{fn: fn, fi: fi, pending: map[*ssa.BasicBlock]*State{}, deferred: map[*ssa.BasicBlock]*State{}, iters: map[*ssa.BasicBlock]int{}, constHdr: map[*ssa.BasicBlock]bool{}, unknownIters: map[*ssa.BasicBlock]int{}}
 	entry := &State{pc: st.pc[:len(st.pc):len(st.pc)], facts: st.facts, eqc: st.eqc, factsShare: true, heap: st.heap, heapShare: true, regs: map[interface{}]Value{}, alloc: st.alloc}
 	st.factsShare, st.heapShare = true, true
 	for i, p := range fn.Params {
@@ -594,8 +608,14 @@ func (ex *Exec) callFunction(st *State, fn *ssa.Function, args []Value, bind []V
 	return e.ret, true
 }
 
+// cancelAll is set when another case has found a violation (fail fast).
+var cancelAll atomic.Bool
+
 func (ex *Exec) runBlock(fr *frame, s *State, b *ssa.BasicBlock) {
 	ex.nStates++
+	if cancelAll.Load() && len(ex.violations) == 0 {
+		panic(unsupported{"cancelled: another case already found a violation"})
+	}
 	if debugVC {
 		fmt.Printf("BLOCK %s b%d (%s) terms=%d heap=%d pc=%d\n", fr.fn.Name(), b.Index, b.Comment, len(ex.tb.terms), len(s.heap), len(s.pc))
 	}
